@@ -83,35 +83,64 @@ impl Stream for Script {
     }
 }
 
-pub struct BytesWriter(pub Vec<u8>);
+/// The writer the loopback hands to streamed bodies: like a socket or a framed transport it takes at most FRAME bytes per
+/// `write` call (a short write is legal for `std::io::Write`; a body must loop, i.e. use `write_all`).
+pub struct Frames(pub Vec<u8>);
+const FRAME: usize = 2;
 
-impl WriteBody<Vec<u8>> for BytesWriter {
-    fn write_body(self: Box<Self>, w: &mut Vec<u8>) -> Result<(), Error> {
-        w.extend_from_slice(&self.0);
+impl std::io::Write for Frames {
+    fn write(&mut self, b: &[u8]) -> std::io::Result<usize> {
+        let n = b.len().min(FRAME);
+        self.0.extend_from_slice(&b[..n]);
+        Ok(n)
+    }
+    fn flush(&mut self) -> std::io::Result<()> {
         Ok(())
     }
 }
 
-impl AsyncWriteBody<Vec<u8>> for BytesWriter {
-    async fn write_body(self, mut w: Pin<&mut Vec<u8>>) -> Result<(), Error> {
-        w.extend_from_slice(&self.0);
+pub struct BytesWriter(pub Vec<u8>);
+
+impl WriteBody<Frames> for BytesWriter {
+    fn write_body(self: Box<Self>, w: &mut Frames) -> Result<(), Error> {
+        std::io::Write::write_all(w, &self.0).map_err(Error::internal_safe)
+    }
+}
+
+impl AsyncWriteBody<Frames> for BytesWriter {
+    async fn write_body(self, mut w: Pin<&mut Frames>) -> Result<(), Error> {
+        w.0.extend_from_slice(&self.0);
         Ok(())
+    }
+}
+
+/// what a handler returns for a streamed response: the blocking handlers use the library's stock `Vec<u8>` body
+pub trait MkBody {
+    fn mk(v: Vec<u8>) -> Self;
+}
+impl MkBody for Vec<u8> {
+    fn mk(v: Vec<u8>) -> Self {
+        v
+    }
+}
+impl MkBody for BytesWriter {
+    fn mk(v: Vec<u8>) -> Self {
+        BytesWriter(v)
     }
 }
 
 struct ClientBytes(Vec<u8>);
-impl conjure_http::client::WriteBody<Vec<u8>> for ClientBytes {
-    fn write_body(&mut self, w: &mut Vec<u8>) -> Result<(), Error> {
-        w.extend_from_slice(&self.0);
-        Ok(())
+impl conjure_http::client::WriteBody<Frames> for ClientBytes {
+    fn write_body(&mut self, w: &mut Frames) -> Result<(), Error> {
+        std::io::Write::write_all(w, &self.0).map_err(Error::internal_safe)
     }
     fn reset(&mut self) -> bool {
         true
     }
 }
-impl conjure_http::client::AsyncWriteBody<Vec<u8>> for ClientBytes {
-    async fn write_body(self: Pin<&mut Self>, mut w: Pin<&mut Vec<u8>>) -> Result<(), Error> {
-        w.extend_from_slice(&self.0);
+impl conjure_http::client::AsyncWriteBody<Frames> for ClientBytes {
+    async fn write_body(self: Pin<&mut Self>, mut w: Pin<&mut Frames>) -> Result<(), Error> {
+        w.0.extend_from_slice(&self.0);
         Ok(())
     }
     async fn reset(self: Pin<&mut Self>) -> bool {
@@ -159,10 +188,10 @@ impl Handler {
 }
 
 macro_rules! matrix_impl {
-    ($tr:path, $($asyncness:tt)?) => {
+    ($tr:path, $body:ty, $($asyncness:tt)?) => {
         impl $tr for Handler {
-            type BinaryBodyBody = BytesWriter;
-            type OptBinaryReturnBody = BytesWriter;
+            type BinaryBodyBody = $body;
+            type OptBinaryReturnBody = $body;
 
             $($asyncness)? fn path_params(&self, s: String, i: i32, d: f64, b: bool, u: Uuid, r: ResourceIdentifier, l: SafeLong,
                 t: DateTime<Utc>, e: a::Color, a_: a::PlStr) -> Result<String, Error> {
@@ -216,16 +245,16 @@ macro_rules! matrix_impl {
                 self.record("mapReturn", vec![("n", j(&n))]);
                 self.ret()
             }
-            $($asyncness)? fn binary_body(&self, body: Script) -> Result<BytesWriter, Error> {
+            $($asyncness)? fn binary_body(&self, body: Script) -> Result<$body, Error> {
                 let bytes = body.collect();
                 self.record("binaryBody", vec![("body", json!(bytes))]);
                 let r: Vec<u8> = self.ret()?;
-                Ok(BytesWriter(r))
+                Ok(<$body as MkBody>::mk(r))
             }
-            $($asyncness)? fn opt_binary_return(&self, n: i32) -> Result<Option<BytesWriter>, Error> {
+            $($asyncness)? fn opt_binary_return(&self, n: i32) -> Result<Option<$body>, Error> {
                 self.record("optBinaryReturn", vec![("n", j(&n))]);
                 let r: Option<Vec<u8>> = self.ret()?;
-                Ok(r.map(BytesWriter))
+                Ok(r.map(<$body as MkBody>::mk))
             }
             $($asyncness)? fn unit(&self, body: String) -> Result<(), Error> {
                 self.record("unit", vec![("body", j(&body))]);
@@ -261,9 +290,9 @@ macro_rules! matrix_impl {
     };
 }
 
-type GenSync = dyn a::Matrix<Script, Vec<u8>, BinaryBodyBody = BytesWriter, OptBinaryReturnBody = BytesWriter>;
-matrix_impl!(a::Matrix<Script, Vec<u8>>,);
-matrix_impl!(a::AsyncMatrix<Script, Vec<u8>>, async);
+type GenSync = dyn a::Matrix<Script, Frames, BinaryBodyBody = Vec<u8>, OptBinaryReturnBody = Vec<u8>>;
+matrix_impl!(a::Matrix<Script, Frames>, Vec<u8>,);
+matrix_impl!(a::AsyncMatrix<Script, Frames>, BytesWriter, async);
 
 // ---------------------------------------------------------------------------------------------------------------
 // loopback
@@ -466,7 +495,7 @@ impl Loop {
             "body_len": body.len(), "body": String::from_utf8_lossy(&body[..body.len().min(400)])});
         let outcome: Result<(String, http::StatusCode, HeaderMap, Vec<u8>), (Option<String>, Error)> = match self.server {
             ServerFlavour::GenBlocking | ServerFlavour::MacroBlocking => {
-                let eps: Vec<Box<dyn Endpoint<Script, Vec<u8>> + Sync + Send>> = if self.server == ServerFlavour::GenBlocking {
+                let eps: Vec<Box<dyn Endpoint<Script, Frames> + Sync + Send>> = if self.server == ServerFlavour::GenBlocking {
                     Service::endpoints(&a::MatrixEndpoints::new(handler), &runtime)
                 } else {
                     Service::endpoints(&mac::MacroMatrixEndpoints::new(handler), &runtime)
@@ -476,13 +505,13 @@ impl Loop {
                     Some((e, pp)) => match e.handle(mk_req(pp), &mut ext) {
                         Ok(resp) => {
                             let (parts, b) = resp.into_parts();
-                            let mut buf = vec![];
+                            let mut buf = Frames(vec![]);
                             let r = match b {
                                 ResponseBody::Empty => Ok(()),
-                                ResponseBody::Fixed(x) => { buf.extend_from_slice(&x); Ok(()) }
+                                ResponseBody::Fixed(x) => { buf.0.extend_from_slice(&x); Ok(()) }
                                 ResponseBody::Streaming(w) => w.write_body(&mut buf),
                             };
-                            match r { Ok(()) => Ok((e.name().to_string(), parts.status, parts.headers, buf)), Err(x) => Err((Some(e.name().to_string()), x)) }
+                            match r { Ok(()) => Ok((e.name().to_string(), parts.status, parts.headers, buf.0)), Err(x) => Err((Some(e.name().to_string()), x)) }
                         }
                         Err(x) => Err((Some(e.name().to_string()), x)),
                     },
@@ -490,22 +519,22 @@ impl Loop {
             }
             _ => {
                 let eps = if self.server == ServerFlavour::GenAsync {
-                    AsyncService::<Script, Vec<u8>>::endpoints(&a::AsyncMatrixEndpoints::new(handler), &runtime)
+                    AsyncService::<Script, Frames>::endpoints(&a::AsyncMatrixEndpoints::new(handler), &runtime)
                 } else {
-                    AsyncService::<Script, Vec<u8>>::endpoints(&mac::AsyncMacroMatrixEndpoints::new(handler), &runtime)
+                    AsyncService::<Script, Frames>::endpoints(&mac::AsyncMacroMatrixEndpoints::new(handler), &runtime)
                 };
                 match eps.iter().find_map(|e| if e.method() == method { route(&method, e.path()).map(|pp| (e, pp)) } else { None }) {
                     None => Err((None, Error::internal_safe("loopback: no endpoint matches the request"))),
                     Some((e, pp)) => match block_on(e.handle(mk_req(pp), &mut ext)) {
                         Ok(resp) => {
                             let (parts, b) = resp.into_parts();
-                            let mut buf = vec![];
+                            let mut buf = Frames(vec![]);
                             let r = match b {
                                 AsyncResponseBody::Empty => Ok(()),
-                                AsyncResponseBody::Fixed(x) => { buf.extend_from_slice(&x); Ok(()) }
+                                AsyncResponseBody::Fixed(x) => { buf.0.extend_from_slice(&x); Ok(()) }
                                 AsyncResponseBody::Streaming(w) => block_on(w.write_body(Pin::new(&mut buf))),
                             };
-                            match r { Ok(()) => Ok((e.name().to_string(), parts.status, parts.headers, buf)), Err(x) => Err((Some(e.name().to_string()), x)) }
+                            match r { Ok(()) => Ok((e.name().to_string(), parts.status, parts.headers, buf.0)), Err(x) => Err((Some(e.name().to_string()), x)) }
                         }
                         Err(x) => Err((Some(e.name().to_string()), x)),
                     },
@@ -566,21 +595,21 @@ impl Loop {
 }
 
 impl Client for &Loop {
-    type BodyWriter = Vec<u8>;
+    type BodyWriter = Frames;
     type ResponseBody = Script;
-    fn send(&self, req: Request<RequestBody<'_, Vec<u8>>>) -> Result<Response<Script>, Error> {
+    fn send(&self, req: Request<RequestBody<'_, Frames>>) -> Result<Response<Script>, Error> {
         let (parts, body) = req.into_parts();
         let bytes = match body {
             RequestBody::Empty => vec![],
             RequestBody::Fixed(b) => b.to_vec(),
             RequestBody::Streaming(mut w) => {
-                let mut buf = vec![];
+                let mut buf = Frames(vec![]);
                 w.write_body(&mut buf)?;
                 if self.retry && w.reset() {
-                    buf.clear();
+                    buf.0.clear();
                     w.write_body(&mut buf)?;
                 }
-                buf
+                buf.0
             }
         };
         self.exchange(parts.method, parts.uri, parts.headers, bytes)
@@ -588,21 +617,21 @@ impl Client for &Loop {
 }
 
 impl AsyncClient for &Loop {
-    type BodyWriter = Vec<u8>;
+    type BodyWriter = Frames;
     type ResponseBody = Script;
-    async fn send(&self, req: Request<AsyncRequestBody<'_, Vec<u8>>>) -> Result<Response<Script>, Error> {
+    async fn send(&self, req: Request<AsyncRequestBody<'_, Frames>>) -> Result<Response<Script>, Error> {
         let (parts, body) = req.into_parts();
         let bytes = match body {
             AsyncRequestBody::Empty => vec![],
             AsyncRequestBody::Fixed(b) => b.to_vec(),
             AsyncRequestBody::Streaming(mut w) => {
-                let mut buf = vec![];
+                let mut buf = Frames(vec![]);
                 conjure_http::client::AsyncWriteBody::write_body(Pin::new(&mut w), Pin::new(&mut buf)).await?;
                 if self.retry && conjure_http::client::AsyncWriteBody::reset(Pin::new(&mut w)).await {
-                    buf.clear();
+                    buf.0.clear();
                     conjure_http::client::AsyncWriteBody::write_body(Pin::new(&mut w), Pin::new(&mut buf)).await?;
                 }
-                buf
+                buf.0
             }
         };
         self.exchange(parts.method, parts.uri, parts.headers, bytes)
